@@ -4,6 +4,7 @@ CONSTANTS
   MaxName1 = 3
   MaxName2 = 1
   Unconditional = FALSE
+  M_KeyIsSourceId = TRUE
   M_NamesVerbatim = TRUE
   M_ZeroOffsetsWritten = TRUE
 INVARIANTS RoundTrip R_RoundTrip ModelD8 Export
